@@ -31,6 +31,12 @@ def run(ctx):
             con = campaign.realizable(prog)
             if con is None:
                 continue
+            comp = None
+            if i % 3 == 0 and not any(x in str(prog) for x in ("Index", "_index", "Lazy", "RestreamData")):
+                try:
+                    comp = con.compile()            # the compiled instance reports the same sizeof: it must advance by it too
+                except Exception:
+                    comp = None
             for k2 in ([kw] + ([{}] if kw else []) + ([{"k": kw["k"]}] if "w" in kw else [])):
                 iz, z = camp.sizeof(prog, con, k2)
                 camp.sh.session("C05.total", [iz])
@@ -50,6 +56,12 @@ def run(ctx):
                         st = rng.choice([0, 1, 2])
                         ip, p = camp.parse(prog, con, b"\xee" * st + data, st, kw)
                         camp.sh.session("C05.exact", [iz, ip])
+                        if comp is not None and p["res"]["ok"]:
+                            oprog = {"k": "Opaque", "desc": "compiled"}
+                            ic, c = camp.parse(oprog, comp, b"\xee" * st + data, st, kw)
+                            camp.sh.session("C05.exact", [iz, ic])
+                            icb, cb = camp.build(oprog, comp, v, pre, kw)
+                            camp.sh.session("C05.exact", [iz, icb])
             camp.sh.maybe_flush()
             if i < 3:
                 ctx.sample({"program": prog, "kw": kw})
